@@ -280,7 +280,7 @@ func deepOracles(run *vh.Run, g *HGen) [][2]string {
 	if f := p.Func("executor.call"); f != nil {
 		viewBracket = "no-isView-test"
 		for i, a := range f.Atoms {
-			if a == "ce.isView" {
+			if a == "executor.isView" {
 				pos := hBracketFirst(p, f.Body, i)
 				viewBracket = fmt.Sprint(pos == "")
 				if pos != "" {
